@@ -33,11 +33,47 @@ NOT_DECIDED_C21 = [
     "(the separation clause is proved under the hypothesis that distinct requests differ by more than it)",
     "'each noise trajectory is simulated as many times as Pulser requests' is C34 (get_sequences)",
 ]
-BOUNDED_C21 = []
-TRUSTED_C14 = []
-NOT_DECIDED_C14 = []
-BOUNDED_C14 = []
-EXPLANATION_C14 = ""
+BOUNDED_C21 = [
+    "floating-point side obligations fp/* (first == 0, last == duration exactly, strictly increasing, within "
+    "[0, D], requested times matched): concrete IEEE-double execution of the function's source on a fixed grid "
+    "of ~1250 (duration, dt) pairs (durations 1..10000, dt 0.1..12345), not a proof",
+    "_unique_observable_times[default=Full]: only that a ValueError may be raised and that a normal return "
+    "collects exactly the observables' own times",
+]
+TRUSTED_C14 = [
+    "pulser's matcher (A4): is_time_in_evaluation_times(t, times, tol) / is_evaluation_time(t, tol) hold iff "
+    "0 <= t <= 1 and |t - e| <= tol for some requested time e (uninterpreted predicates M_own, M_def)",
+    "Observable.__call__ stores a value iff the time matches one of the observable's own times (its default "
+    "times if it has none) within 0.5/duration >= 1e-10: invoked at a matching time => exactly one stored value",
+    "opaque callees (stepper.apply, get_hamiltonian, _save_statistics, update_H, init_baths, make_H, "
+    "_get_interaction_matrix, the observables) do not touch target_times, the step counters or the state "
+    "except as modelled (stepper.apply returns the next state); SequenceData has omega.shape[0] == "
+    "len(target_times) - 1 (C22 shape clause) and target_times[-1] > 0 (C21)",
+    "[x for x in seq if c(x)] is the sub-sequence of the elements satisfying c, in order (pyvc/floatsets.py)",
+]
+NOT_DECIDED_C14 = [
+    "MPSBackendImpl.progress / sweep_complete and the noisy / DMRG variants (that timestep_complete is called "
+    "exactly when the sweep has brought the state to target_time: the precondition of timestep_complete here) -- "
+    "the quantum-jump root finding moves target_time between target times and is not under contract",
+    "requested evaluation times that are distinct but within 1e-10 of each other (see C21); pulser itself "
+    "rejects times closer than 1e-12 within one observable",
+    "that the value stored is numerically the observable of the state (C15/C16 territory)",
+    "floating-point rounding of target_times[k] / target_times[-1] in the matcher (reals here; the bounded "
+    "float side check fp/one-target-time-per-requested-time and the native replay exercise it)",
+]
+BOUNDED_C14 = [
+    "fp/one-target-time-per-requested-time: concrete IEEE-double execution of _get_target_times on ~1250 "
+    "(duration, dt) pairs with numpy.linspace(0,1,101) / thirds as requested times",
+]
+EXPLANATION_C14 = (
+    "C14 is assembled from (a) _get_target_times: every requested time is matched by a target time, nothing "
+    "but grid points and requested times is in the grid, and no two target times match one requested time "
+    "(separation); (b) the backends' protocol, verified with monitors (ghost counters on the implementation "
+    "object checked at every call of the stepper and of an observable): len(target_times)-1 solver steps, each "
+    "over [t_k, t_k+1] from the current state with the drives of step k; observables applied at index 0 before "
+    "the first step and after step k at t_{k+1}/t_last on the state produced by that step, each target index "
+    "exactly once in increasing order, every observable that wants the time invoked exactly once; "
+    "(c) _is_evaluation_time selects an observable exactly at the times it wants.")
 EXPLANATION_C21 = (
     "_get_target_times is executed symbolically on a duration D > 0, a step dt > 2e-10*D and an arbitrary set "
     "of requested times in [0,1]; the result list is characterised by the trusted specification of sorted(). "
